@@ -7,6 +7,61 @@ from sismic.model import (CompoundState, DeepHistoryState, FinalState, Orthogona
                           ShallowHistoryState)
 
 
+class Tree:
+    """The hierarchy of a statechart as the oracles see it: computed here from the parent of every
+    state, never through the implementation's own `ancestors_for` / `descendants_for` / `depth_for` /
+    `least_common_ancestor` (which are part of what is being checked, and may be cached)."""
+
+    def __init__(self, sc):
+        self.parent = {n: sc.parent_for(n) for n in sc.states}
+        self.kids = {n: [] for n in self.parent}
+        for n, p in self.parent.items():
+            if p is not None:
+                self.kids.setdefault(p, []).append(n)
+
+    def ancestors_for(self, n):
+        out, seen = [], set()
+        p = self.parent.get(n)
+        while p is not None and p not in seen:
+            out.append(p)
+            seen.add(p)
+            p = self.parent.get(p)
+        return out
+
+    def descendants_for(self, n):
+        out, todo = [], list(self.kids.get(n, []))
+        while todo:
+            x = todo.pop(0)
+            if x in out:
+                continue
+            out.append(x)
+            todo += self.kids.get(x, [])
+        return out
+
+    def depth_for(self, n):
+        return len(self.ancestors_for(n)) + 1
+
+    def parent_for(self, n):
+        return self.parent.get(n)
+
+    def children_for(self, n):
+        return list(self.kids.get(n, []))
+
+
+_TREES = {}
+
+
+def tree(sc):
+    """(cached per statechart object and parent map)"""
+    key = id(sc)
+    sig = tuple((n, sc.parent_for(n)) for n in sc.states)
+    if key not in _TREES or _TREES[key][0] != sig:
+        if len(_TREES) > 64:
+            _TREES.clear()
+        _TREES[key] = (sig, Tree(sc))
+    return _TREES[key][1]
+
+
 def is_hist(st):
     return isinstance(st, (ShallowHistoryState, DeepHistoryState))
 
@@ -44,7 +99,7 @@ def fires_spec(sc, trans, cfg, ev_name, gv):
     comp = [(i, t) for i, t in en if t.event is None] or en
     res = []
     for i, t in comp:
-        if any(t.source in sc.ancestors_for(u.source) for _, u in comp):
+        if any(t.source in tree(sc).ancestors_for(u.source) for _, u in comp):
             continue
         if any(u.source == t.source and u.priority > t.priority for _, u in comp):
             continue
@@ -53,7 +108,7 @@ def fires_spec(sc, trans, cfg, ev_name, gv):
 
 
 def sub(sc, x):
-    return [x] + sc.descendants_for(x)
+    return [x] + tree(sc).descendants_for(x)
 
 
 def classify(sc, ts):
@@ -62,9 +117,9 @@ def classify(sc, ts):
     for t1, t2 in itertools.combinations(ts, 2):
         s1, s2 = t1.source, t2.source
         sep = None
-        if s1 != s2 and s1 not in sc.ancestors_for(s2) and s2 not in sc.ancestors_for(s1):
-            a1 = sc.ancestors_for(s1)
-            a2 = sc.ancestors_for(s2)
+        if s1 != s2 and s1 not in tree(sc).ancestors_for(s2) and s2 not in tree(sc).ancestors_for(s1):
+            a1 = tree(sc).ancestors_for(s1)
+            a2 = tree(sc).ancestors_for(s2)
             common = [a for a in a1 if a in a2]
             if common and isinstance(sc.state_for(common[0]), OrthogonalState):
                 lca = common[0]
@@ -233,3 +288,56 @@ def wf_json(j):
             if l is not None and kind(l) == 'orthogonal' and last_before(t['source'], l) != last_before(tg, l):
                 return False
     return True
+
+
+def calls_in_source(src, with_delay=False):
+    """the `send(...)` / `notify(...)` calls of a straight-line code fragment, in the order in which
+    they are executed (= textual order): [('send' | 'notify', name), ...]; None if the fragment is not
+    straight-line (then nothing is claimed)"""
+    import ast
+    if not src:
+        return []
+    try:
+        tree = ast.parse(src)
+    except SyntaxError:
+        return None
+    out = []
+    for stmt in tree.body:
+        if not isinstance(stmt, (ast.Expr, ast.Assign, ast.AugAssign, ast.Pass)):
+            return None
+        for node in ast.walk(stmt):
+            if isinstance(node, (ast.IfExp, ast.BoolOp, ast.Lambda)):
+                return None
+        calls = [n for n in ast.walk(stmt) if isinstance(n, ast.Call) and isinstance(n.func, ast.Name)
+                 and n.func.id in ('send', 'notify')]
+        calls.sort(key=lambda n: (n.lineno, n.col_offset))
+        for n in calls:
+            if not n.args or not isinstance(n.args[0], ast.Constant):
+                return None
+            out.append((n.func.id, n.args[0].value))
+            if with_delay:
+                d = [kw.value for kw in n.keywords if kw.arg == 'delay']
+                lit = None
+                if d:
+                    try:
+                        lit = ast.literal_eval(d[0])
+                    except ValueError:
+                        return None
+                out[-1] = out[-1] + (lit,)
+    return out
+
+
+def sent_in_source_order(sc, trans, micro, with_delay=False):
+    """what a micro step must list as sent, from the source of the code fragments it executes (exit code of
+    the exited states, the action, entry code of the entered states, in that order); None = no claim"""
+    frags = [getattr(sc.state_for(s), 'on_exit', None) for s in micro['exited']]
+    if micro['transition'] is not None:
+        frags.append(trans[micro['transition']].action)
+    frags += [getattr(sc.state_for(s), 'on_entry', None) for s in micro['entered']]
+    out = []
+    for f in frags:
+        c = calls_in_source(f, with_delay)
+        if c is None:
+            return None
+        out += c
+    return out
